@@ -140,7 +140,14 @@ func genPositionsWalk(r *rand.Rand, n int) []Step {
 func genScenario(r *rand.Rand, i int) []Step {
 	blk := func(dt int) Step { return Step{"a": "block", "dt": float64(dt)} }
 	u, v := pick(r, "u2", "u3"), "u1"
-	switch i % 20 {
+	switch i % 21 {
+	case 20: // a two-sided market; a long with trading-asset collateral and (almost) no leverage owes funding but no interest; a bot
+		// names it in the liquidation list while it is healthy (the attempt settles interest and funding and leaves it open)
+		return []Step{{"a": "perpOpen", "u": v, "p": float64(1), "side": "short", "coll": "uusdc", "sz": "s1", "lev": "2"},
+			{"a": "perpOpen", "u": u, "p": float64(1), "side": "long", "coll": "trading", "sz": pick(r, "s2", "s3"), "lev": "1.0001"},
+			{"a": "perpOpen", "u": "u3", "p": float64(1), "side": "long", "coll": "uusdc", "sz": "s1", "lev": "3"}, blk(5), blk(pick(r, 5, 30)),
+			{"a": "perpClosePositions", "u": "bot", "exact": true, "liq": []any{[]any{u, float64(2)}}, "sl": []any{}, "tp": []any{}}, blk(5),
+			{"a": "perpClosePositions", "u": "bot", "exact": true, "liq": []any{[]any{u, float64(2)}, []any{"u3", float64(3)}}, "sl": []any{}, "tp": []any{}}, blk(5)}
 	case 19: // a long accrues borrow interest, its owner tops it up (the consolidation books the interest as UNPAID without settling it),
 		// then the market reaches the stop-loss (or take-profit) and a bot closes it through the stop-loss / take-profit list
 		return []Step{{"a": "perpOpen", "u": u, "p": float64(1), "side": "long", "coll": "uusdc", "sz": "s2", "lev": "3", "sl": "0.9", "tp": "1.2"},
